@@ -54,6 +54,8 @@ def run_case(case):
             nt = nt and (max(us) - min(us)) > 0.1 * (abs(np.mean(us)) + 1e-9)
         if short == "ic":
             nt = nt and w > 1e-6
+        if short == "obs" and spec["net"].get("slice_solution"):
+            labels.append("slice_solution")
         if short == "obs" and spec["obs"].get("eq_params"):
             labels.append("obs-params")
             nt = nt and spec["net"]["transform"] != "none" and w > 1e-6
@@ -70,7 +72,7 @@ def strat():
     @st.composite
     def s(draw):
         first = draw(st.sampled_from(["ic", "norm", "obs"]))
-        spec = draw(single_spec(want=(first,), maybe=("ic", "norm", "obs", "eq"), param_batch="maybe", obs_params=True,
+        spec = draw(single_spec(want=(first,), maybe=("ic", "norm", "obs", "eq"), param_batch="maybe", obs_params=True, slice_solution=True,
                                 transform=draw(st.sampled_from(["scale", "affine", "none"]))))
         return {"spec": spec}
 
